@@ -19,6 +19,9 @@ FAMILIES = {
     "hq3": dict(profile=3, version=3, level=0, fields=False, sx=2, sy=1),
     "ld1": dict(profile=0, version=1, level=0, fields=False, sx=2, sy=1),
     "ld3": dict(profile=0, version=3, level=0, fields=False, sx=2, sy=2),
+    # a header version above what any low-delay sequence without fragments needs, and not 3: every history with a
+    # picture is non-conformant (version not minimal) and so is the picture-less one (only version 3 is excused there)
+    "ld2": dict(profile=0, version=2, level=0, fields=False, sx=2, sy=1),
     "hq2f": dict(profile=3, version=2, level=0, fields=True, sx=2, sy=1),
     "hq3f": dict(profile=3, version=3, level=0, fields=True, sx=2, sy=1),
     "hq3w": dict(profile=3, version=3, level=0, fields=False, sx=3, sy=1),
